@@ -10,6 +10,7 @@ VERIF=$(cd "$(dirname "$0")/.." && pwd)
 cd "$VERIF"
 want_names=("$@")
 fail=0
+resfile=$(mktemp)
 run_one() {
   kind=$1; n=$2
   p="$VERIF/selftest/$kind/$n.patch"
@@ -24,13 +25,13 @@ run_one() {
     out=$(LNCVC_REPO="$wt" LNCVC_VERIF_OUT="$wt/.verifout" "$VERIF/bin/check" "$prop" quick --scratch 2>&1)
     code=$?
     if [ "$kind" = mutants ]; then
-      if [ $code -eq 1 ] && echo "$out" | grep -q "FAIL .*$want"; then
+      if [ $code -eq 1 ] && { echo "$out" | grep -q "FAIL .*$want" || { [ "$want" = ANY ] && echo "$out" | grep -q "^VIOLATION property=$prop "; }; }; then
         echo "MUTANT $n: caught by $prop ($want)"
       else
-        echo "MUTANT $n: NOT caught by $prop (exit $code)"; echo "$out" | tail -5; fail=1
+        echo "MUTANT $n: NOT caught by $prop (exit $code)"; echo "$out" | tail -5; echo fail >> "$resfile"
       fi
     else
-      if [ $code -eq 0 ]; then echo "HARMLESS $n: $prop still verifies"; else echo "HARMLESS $n: FALSE ALARM on $prop"; echo "$out" | grep -E "FAIL|VIOLATION|ERROR" | head -5; fail=1; fi
+      if [ $code -eq 0 ]; then echo "HARMLESS $n: $prop still verifies"; else echo "HARMLESS $n: FALSE ALARM on $prop"; echo "$out" | grep -E "FAIL|VIOLATION|ERROR" | head -5; echo fail >> "$resfile"; fi
     fi
   done
   git -C /repo worktree remove --force "$wt"
@@ -49,4 +50,6 @@ for kind in mutants harmless; do
   done
 done
 wait
+[ -s "$resfile" ] && fail=1
+rm -f "$resfile"
 exit $fail
